@@ -218,7 +218,22 @@ impl<'a> Ctx<'a> {
     }
 }
 
+/// Large tables can hide an endless scan: those cases run on a helper thread under a watchdog.
 pub fn exec(c: &Case) -> Outcome {
+    if c.channel_max >= 60_000 {
+        let c2 = c.clone();
+        return match crate::session::timed(std::time::Duration::from_secs(20), "avh-c10", move || exec_inner(&c2)) {
+            Some(o) => o,
+            None => Outcome::hang(
+                "open-or-close-never-returns",
+                format!("channel_max={}: the op sequence {:?} did not finish within 20 s (typical: milliseconds)", c.channel_max, c.ops),
+            ),
+        };
+    }
+    exec_inner(c)
+}
+
+fn exec_inner(c: &Case) -> Outcome {
     let max = c.channel_max.max(1);
     let mut cx = Ctx {
         probe: SlotsProbe::new(max),
